@@ -819,6 +819,7 @@ func runC16(c *run.Ctx) {
 		}
 	}
 	c16GoAPI(c)
+	c16SameNameLoads(c)
 	c16Ggqlgen(c)
 }
 
